@@ -341,8 +341,10 @@ def check_c11(run: Run, prog: Program) -> None:
     run.clause = (
         "decides (i) the error clause: NotCollinear / NotConcurrent are raised, reachable from crossratio, guarded by a predicate over "
         "all four arguments and not intercepted; (ii) balance: the returned quotient has homogeneity degree 0 in each of a, b, c, d "
-        "(and from_point) on the decided paths - a necessary condition for being a projective invariant at all. NOT decided: which of "
-        "the 24 permutations is computed, the 0/0 positions, harmonic_set."
+        "(and from_point) on the decided paths - a necessary condition for being a projective invariant at all; (iii) the closed-form value (E19.cr): for four points "
+        "P + x_i Q of one line - in the plane, in the plane seen from a fifth point, in 3-space - the returned quotient of determinants, read as polynomials in P, Q and "
+        "the parameters, equals (x1 - x3)(x2 - x4) / ((x1 - x4)(x2 - x3)) after cross-multiplication, so the symmetries of C11 follow from the closed form. NOT decided: the "
+        "line and plane pencils (they are reduced to points through base_point / basis_matrix), the 0/0 positions, harmonic_set."
     )
     fn = prog.func("crossratio")
     quad = [p.arg for p in fn.params()[:4]]
@@ -355,6 +357,10 @@ def check_c11(run: Run, prog: Program) -> None:
         homog = None
     if homog is not None:
         homog.check_crossratio(run, prog)
+    from geolint import quadforms
+
+    ncr = quadforms.rule_crossratio(run, prog)
+    run.floor("closed-form cases of the cross ratio read", ncr, 3)
 
 
 # ================================================================================================ C07
@@ -579,7 +585,10 @@ def check_c17(run: Run, prog: Program) -> None:
         "decides two necessary conditions for the invariance clauses: every measure returned by a polytope class (area, volume, length, "
         "radius, inradius, angles, ...) is computed from dehomogenised (degree-0) coordinates, and every point-valued statistic built "
         "from vertex coordinates (center, centroid) is an affine combination (total weight 1) - otherwise it is not equivariant under "
-        "translations. NOT decided: the formulas themselves; the roll/flip logic of __eq__; constructive results (midpoint, circumcenter)."
+        "translations. (E19.poly) The formulas of the planar polygon: PolygonTensor.area and Polygon.centroid, interpreted for symbolic vertices (3, 4 and 5 of them), are "
+        "1/2 |shoelace sum| and the area centroid as polynomial identities - the invariance under rotation and reversal of the vertex list follows from the closed forms. "
+        "NOT decided: the projection of polygons embedded in 3-space onto their plane, Simplex.volume, RegularPolygon, Cuboid; the roll/flip logic of __eq__; constructive "
+        "results (midpoint, circumcenter)."
     )
     poly = prog.cls("PolytopeTensor")
 
@@ -592,6 +601,10 @@ def check_c17(run: Run, prog: Program) -> None:
     run.floor("measure return paths", n2, 4)
     run.floor("point-valued vertex statistics", n1, 1)
     run.stats.update({"affine_sinks": n1, "measure_returns": n2})
+    from geolint import quadforms
+
+    n3 = quadforms.rule_polygon_measures(run, prog)
+    run.floor("polygon measure formulas read (found, decided or not)", n3, 4)
 
 
 # ================================================================================================ C15
